@@ -103,7 +103,12 @@ class StorageTools:
         logger.debug("writeProfileData(profile_name=%s, name=%s, val=[omitted])" % (profile_name, name))
         storage = StorageTools.getStorageForProfile(profile_name)
         if not os.path.exists(storage):
-            os.makedirs(storage)
+            try:
+                os.makedirs(storage)
+            except OSError:
+                # another thread saving the same profile may have created it meanwhile
+                if not os.path.isdir(storage):
+                    raise
         path = os.path.join(storage, name)
         logger.debug("Writing %s" % path)
 
